@@ -644,7 +644,21 @@ func TestC17(t *testing.T) {
 			if i%2 == 0 {
 				ifname = []string{"eth0", "wlan0", "br-lan", "eth0.100", "en;reboot", "a b"}[r.Intn(6)]
 			}
+			// every fifth call: the client's own environment already holds variables of these names (a wrapper script, a unit
+			// file, a client started from another client's hook): what the hook is told is still what this lease says
+			inherited := i%5 == 0
+			if inherited {
+				for _, k := range []string{"DOMAIN_NAME", "DNS_LIST", "IPV4_ROUTER", "IPV4_ADDRESS", "NETMASK", "MTU", "LEASE_SEC", "INTERFACE"} {
+					os.Setenv("PSA_DHCPC_"+k, "inherited;`id`$(x) "+k)
+				}
+				kind += "+inherited"
+			}
 			got, err := childEnv(ifname, x.conf())
+			if inherited {
+				for _, k := range []string{"DOMAIN_NAME", "DNS_LIST", "IPV4_ROUTER", "IPV4_ADDRESS", "NETMASK", "MTU", "LEASE_SEC", "INTERFACE"} {
+					os.Unsetenv("PSA_DHCPC_" + k)
+				}
+			}
 			if err != nil {
 				t.Errorf("child process case %d: %v", i, err)
 				continue
